@@ -232,7 +232,7 @@ class _Validator:
                     moved = c is not None and self.names.get(c["name"], 0) >= 2
                     add(("host-change:" if moved else "") + "pop-on-empty-state-stack",
                         "line %d: PajePopState on container %r (%s), state type %r: nothing is pushed"
-                        % (ln, f["Container"], c["name"] if c else "?", f["Type"]))
+                        % (ln, f["Container"], c["name"] if c else "?", f["Type"]), c["name"] if c else None)
                 else:
                     stack.pop()
             elif name == "PajeSetState":
